@@ -53,6 +53,9 @@ func (s *xsched) parkedOutsideMutex(proc string) bool {
 }
 
 func (s *xsched) hook(ctx context.Context, point string, _ ...uint64) {
+	if point == "localHead.betweenReads" {
+		return // used by the hand-built Head() schedules only (it is reached with and without the incoming-head mutex held)
+	}
 	proc := "L" // the sync loop and everything else without a name
 	if ctx != nil {
 		if v, ok := ctx.Value(procKey{}).(string); ok {
